@@ -6,76 +6,7 @@ import "math"
 // later branch conditions are first evaluated under that model, which decides one side
 // for free and leaves a single solver query for the other side.
 
-func (in *Interp) dropModel() {
-	in.modelValid = false
-}
-
-func (in *Interp) setModel(vars []*Term, vals []uint64) {
-	in.model = make(map[int]uint64, len(vars))
-	for i, v := range vars {
-		in.model[v.ID] = vals[i]
-	}
-	in.evalMemo = map[int]uint64{}
-	in.modelValid = true
-}
-
-// allVars lists the variables created so far on this path.
-func (in *Interp) noteVar(t *Term) {
-	in.pathVars = append(in.pathVars, t)
-}
-
-// fetchModel must be called right after a Sat check in the same solver scope.
-func (in *Interp) fetchModel() bool {
-	// only variables occurring in the path condition are constrained; all others default to 0
-	if len(in.pcVars) == 0 {
-		in.setModel(nil, nil)
-		return true
-	}
-	vals, err := in.sol.GetValues(in.pcVars)
-	if err != nil {
-		in.modelValid = false
-		return false
-	}
-	in.setModel(in.pcVars, vals)
-	return true
-}
-
-// notePCVars records the variables of a newly assumed condition.
-func (in *Interp) notePCVars(t *Term) {
-	st := []*Term{t}
-	for len(st) > 0 {
-		x := st[len(st)-1]
-		st = st[:len(st)-1]
-		if x.Op == OpConst || in.pcSeen[x.ID] {
-			continue
-		}
-		in.pcSeen[x.ID] = true
-		if x.Op == OpVar {
-			in.pcVars = append(in.pcVars, x)
-			continue
-		}
-		st = append(st, x.Args...)
-	}
-}
-
-// ensureModel makes sure a model of the current PC is cached. Returns false if PC is unsat.
-func (in *Interp) ensureModel() bool {
-	if in.modelValid {
-		return true
-	}
-	switch in.sol.Check() {
-	case Sat:
-		if !in.fetchModel() {
-			in.incomplete("model fetch failed")
-			return true
-		}
-		return true
-	case Unsat:
-		return false
-	}
-	in.incomplete("solver unknown at model refresh")
-	return true
-}
+func (in *Interp) noteVar(t *Term) { in.pathVars = append(in.pathVars, t) }
 
 func (in *Interp) evalBool(t *Term) bool { return in.evalT(t) == 1 }
 
